@@ -95,6 +95,13 @@ pub fn panicking_waker() -> Waker {
     Waker::from(Arc::new(P))
 }
 
+/// A waker whose `clone` panics (its `wake`s and `drop` do nothing).
+pub fn clone_panicking_waker() -> Waker {
+    use std::task::{RawWaker, RawWakerVTable};
+    static VT: RawWakerVTable = RawWakerVTable::new(|_| panic!("Waker::clone panics"), |_| {}, |_| {}, |_| {});
+    unsafe { Waker::from_raw(RawWaker::new(std::ptr::null(), &VT)) }
+}
+
 pub fn drain_wakes() -> Vec<u32> {
     std::mem::take(&mut *lockp(&WAKES))
 }
